@@ -519,6 +519,18 @@ class Evaluator:
                     vals = list(value)
                 except TypeError:
                     raise Unknown("unpacking a non-sequence")
+                stars = [i for i, t in enumerate(target.elts) if isinstance(t, ast.Starred)]
+                if len(stars) == 1:
+                    # head, *rest, tail = values
+                    i, after = stars[0], len(target.elts) - stars[0] - 1
+                    if len(vals) < len(target.elts) - 1:
+                        raise EvalRaise("ValueError", target)
+                    for t, v in zip(target.elts[:i], vals[:i]):
+                        self.assign(t, v)
+                    self.assign(target.elts[i].value, vals[i:len(vals) - after])
+                    for t, v in zip(target.elts[i + 1:], vals[len(vals) - after:]):
+                        self.assign(t, v)
+                    return
                 if len(vals) != len(target.elts):
                     raise EvalRaise("ValueError", target)
                 for t, v in zip(target.elts, vals):
